@@ -117,6 +117,9 @@ def strategy(tier):
         # the application's disconnect handler of one namespace raises when
         # the transport is lost: the reconnection effort starts all the same
         'dhf': st.one_of(st.none(), st.none(), st.integers(0, 2)),
+        # the application's connect_error handler raises at its j-th
+        # invocation during the effort: that attempt has failed all the same
+        'cehf': st.one_of(st.none(), st.none(), st.integers(1, 4)),
         'chf': st.one_of(st.none(), st.none(), st.fixed_dictionaries({
             'ns': st.integers(0, 2), 'j': st.integers(1, 3),
             'mode': st.sampled_from(['raise', 'stall'])}))})
@@ -200,9 +203,22 @@ def _run(case, h):
                 for _ in range(4):
                     await asyncio.sleep(0)
         return a_on_disconnect
+    cehf_state = {'on': False, 'n': 0, 'hit': False}
+
+    def on_connect_error(*a):
+        if cehf_state['on'] and case.get('cehf') is not None:
+            cehf_state['n'] += 1
+            if cehf_state['n'] == case['cehf']:
+                cehf_state['hit'] = True
+                raise RuntimeError('application connect_error handler fault')
+    if aio:
+        async def a_on_connect_error(*a):
+            on_connect_error(*a)
     for n in NSS:
         sio.on('connect', mk_connect(n), namespace=n)
         sio.on('disconnect', mk_disconnect(n), namespace=n)
+        sio.on('connect_error', a_on_connect_error if aio else
+               on_connect_error, namespace=n)
     calls = {'auth': 0, 'url': 0}
 
     def auth_fn():
@@ -631,8 +647,17 @@ def _run(case, h):
     if started != 1:
         raise Violation('effort-count', '%d efforts started' % started)
     chf_state['on'] = True
+    cehf_state['on'] = True
     waits = run_effort()
     chf_state['on'] = False
+    cehf_state['on'] = False
+    if cehf_state['hit']:
+        h.swallowed[:] = [e for e in h.swallowed if
+                          'connect_error handler' not in str(e)]
+        h.bg_errors[:] = [e for e in h.bg_errors if
+                          'connect_error handler' not in str(e)]
+        labels['connect_error_handler_fault'] = True
+        labels['nontrivial'] = True
     if aio:
         h.loop.run_until_idle()
     if inverted[0] and sio.connected and h.eio.state != 'connected':
